@@ -142,6 +142,7 @@ func (fv *FuncVerifier) evalCall(st *State, env *Env, call *ast.CallExpr) []Term
 	fv.oblige(st, env, "S", "nilcall", Not(App(SBool, "=", fval, Null)), call.Lparen, "call of non-nil function value")
 	// unknown function value: arbitrary effects and results
 	if !env.spec {
+		fv.nondet = append(fv.nondet, "call of unknown function value "+exprString(fun))
 		fv.note("call of unknown function value %s at %s: heap havocked", exprString(fun), fv.pos(call.Pos()))
 		fv.havocAll(st)
 	}
@@ -406,6 +407,15 @@ func (fv *FuncVerifier) specHelper(st *State, env *Env, call *ast.CallExpr, name
 		}
 		al := fv.heapGet(src, "$ghost:alloc", "(Array Ref Bool)")
 		return And(Not(App(SBool, "=", r, Null)), Not(App(SBool, "select", al, r))), true
+	case "spec_assert":
+		c := fv.eval(st, &Env{info: env.info, binds: env.binds, names: env.names, old: env.old, oldB: env.oldB, entry: env.entry, spec: true}, call.Args[0])
+		fv.oblige(st, env, "F", "assert", c, call.Lparen, "ghost assertion (lemma)")
+		return True, true
+	case "spec_assume":
+		c := fv.eval(st, &Env{info: env.info, binds: env.binds, names: env.names, old: env.old, oldB: env.oldB, entry: env.entry, spec: true}, call.Args[0])
+		st.Assume(c)
+		fv.note("assumed (spec_assume) at %s", fv.pos(call.Pos()))
+		return True, true
 	case "spec_existsIn", "spec_forallIn":
 		lo := fv.eval(st, env, call.Args[0])
 		hi := fv.eval(st, env, call.Args[1])
@@ -770,6 +780,7 @@ func (fv *FuncVerifier) callRepoFunc(st *State, env *Env, call *ast.CallExpr, fi
 	if c == nil || !(c.Has("requires", 0) || c.Has("ensures", 0) || c.Has("pure", 0) || c.Has("assigns", 0) || c.Has("yields", 0) || c.Has("effects", 0)) {
 		// no contract: arbitrary effects and results
 		if !env.spec {
+			fv.nondet = append(fv.nondet, "call of uncontracted "+fi.Key)
 			fv.note("call of uncontracted %s at %s: heap and map arguments havocked", fi.Key, fv.pos(call.Pos()))
 			fv.havocAll(st)
 			fv.havocMapArgs(st, env, call)
@@ -831,6 +842,26 @@ func (fv *FuncVerifier) callRepoFunc(st *State, env *Env, call *ast.CallExpr, fi
 		}
 	}
 	res := fv.freshResults(st, sig)
+	if c.Has("functional", 0) {
+		// result is a deterministic function of the arguments and the (unchanged) heap: same inputs, same result
+		var ins []Term
+		if hasRecv {
+			ins = append(ins, recv)
+		}
+		ins = append(ins, args...)
+		ins = append(ins, IntLit(int64(fv.heapVersion(st))))
+		var sorts []Sort
+		for _, a := range ins {
+			sorts = append(sorts, a.Sort)
+		}
+		for i := range res {
+			name := fmt.Sprintf("fun_%s_%d", sanitize(fi.Key), i)
+			fv.w.UFun(name, sorts, res[i].Sort, "")
+			st.Assume(App(SBool, "=", res[i], App(res[i].Sort, name, ins...)))
+		}
+	} else if !c.Has("pure", 0) || len(c.Get("ensures", 0, 0)) == 0 {
+		// result not pinned down by determinism
+	}
 	names := map[string]Term{}
 	fv.bindResultNames(fi, res, names, binds)
 	for _, cl := range c.Get("ensures", 0, 0) {
@@ -845,6 +876,29 @@ func (fv *FuncVerifier) callRepoFunc(st *State, env *Env, call *ast.CallExpr, fi
 		}
 	}
 	return res
+}
+
+// heapVersion identifies the current heap contents: it changes whenever any heap cell may have changed.
+func (fv *FuncVerifier) heapVersion(st *State) int {
+	// hash of (epoch, marks, syntactic heap terms)
+	h := st.epoch*1000003 + len(st.hmark)
+	for k, v := range st.hmark {
+		h = h*31 + v + len(k)
+	}
+	for k, v := range st.heap {
+		if strings.HasPrefix(k, "$ghost:") {
+			continue
+		}
+		x := 0
+		for i := 0; i < len(v.S); i++ {
+			x = x*131 + int(v.S[i])
+		}
+		h ^= x + len(k)*7919
+	}
+	if h < 0 {
+		h = -h
+	}
+	return h % 1000000007
 }
 
 func (fv *FuncVerifier) obligeNamed(st *State, env *Env, class, kind string, goal Term, site token.Pos, desc string) {
@@ -1064,9 +1118,13 @@ func (fv *FuncVerifier) callUnknown(st *State, env *Env, call *ast.CallExpr, fn 
 		return res
 	case "drop":
 		fv.dropped[full] = true
+		if sig.Results().Len() > 0 {
+			fv.nondet = append(fv.nondet, "result of dropped call "+full)
+		}
 		return fv.freshResults(st, sig)
 	}
 	if !env.spec {
+		fv.nondet = append(fv.nondet, "call of unknown external "+full)
 		fv.note("call of unknown external %s at %s: heap and map arguments havocked", full, fv.pos(call.Pos()))
 		fv.externUsed[full+" (unknown: havoc)"] = true
 		fv.havocAll(st)
